@@ -9,6 +9,10 @@ re-run in a fresh interpreter):
   {"op": "renames", "kw": [[key, id]], "raises": bool}   the context manager on its own
   {"op": "build_new", "outs": [ids], "drop": bool}        build Vars constructed during the history (twice);
                                                           the same request later in the history must give the same bytes
+  {"op": "edit_model", "model": k, "how": "weights"|"op"}  the CALLER edits a model it passed to inline
+                                                          earlier, in place, keeping its byte size
+  construct kinds "untyped"/"partial": a user-defined operator whose output has no type / no rank
+  inline "how": also "bad-second" (model 2 with a wrongly typed second argument: fails after the first was seen)
   construct kinds "id19"/"id21": Identity of opset 19 / 21 (forces the model's default opset up)
 Nothing here uses the Lean model.
 """
@@ -171,6 +175,7 @@ def run_case(prog, hist, ref, collect_all=False):
 
     del lf.DICT_MUTATIONS[:]
     seen_new = {}
+    edited = set()
     for step, o in enumerate(hist):
         before = snapshot(env)
         mb = {k: m.SerializeToString(deterministic=True) for k, m in models.items()}
@@ -186,7 +191,15 @@ def run_case(prog, hist, ref, collect_all=False):
             elif kind == "construct":
                 a, b = env[o["a"]], env.get(o.get("b"))
                 k = o["k"]
-                if k in ("id19", "id21"):
+                v = None
+                if k in ("untyped", "partial"):
+                    try:
+                        from harness import lib_untyped
+
+                        v = lib_untyped.make(k)(a)
+                    except Exception:  # noqa: BLE001 - the custom-operator recipe is not available on this tree
+                        tag = "skipped"
+                elif k in ("id19", "id21"):
                     import importlib
 
                     v = importlib.import_module("spox.opset.ai.onnx.v" + k[2:]).identity(a)  # a genuinely newer operator
@@ -196,7 +209,8 @@ def run_case(prog, hist, ref, collect_all=False):
                     v = op.neg(a)
                 else:
                     v = (op.add if k == "add" else op.mul)(a, b)
-                env[next_id[0]] = v
+                if v is not None:
+                    env[next_id[0]] = v
                 next_id[0] += 1
             elif kind == "inline":
                 k = o["model"]
@@ -214,12 +228,32 @@ def run_case(prog, hist, ref, collect_all=False):
                         res = f(x)
                     elif how == "missing":
                         res = f()
+                    elif how == "bad-second":
+                        res = f(x, x)  # model 2's second input is a rank-2 tensor: TypeError after `x` was looked at
                     else:
                         res = f(x=x, nonexistent=x)
                     for v in res.values():
                         env[next_id[0]] = v
                         next_id[0] += 1
                     tag = "inline-ok"
+                    # the result must be what an equal, never-seen copy of the model gives — also after the
+                    # caller has edited the model in place since an earlier inline call
+                    if how in ("kw", "pos") and getattr(x, "type", None) is not None:
+                        import onnx
+
+                        twin = onnx.ModelProto()
+                        twin.CopyFrom(m)
+                        res2 = spox.inline(twin)(x=x) if how == "kw" else spox.inline(twin)(x)
+                        arg_ids = [n["id"] for n in prog["nodes"] if n["k"] == "arg"]
+                        ins_ = {f"x{j}": env[a] for j, a in enumerate(arg_ids)}
+                        try:
+                            b1 = sha(spox.build(ins_, {f"o{j}": v for j, v in enumerate(res.values())}, drop_unused_inputs=True))
+                            b2 = sha(spox.build(ins_, {f"o{j}": v for j, v in enumerate(res2.values())}, drop_unused_inputs=True))
+                        except Exception:  # noqa: BLE001 - not buildable (e.g. depends on an untyped value): nothing to compare
+                            b1 = b2 = None
+                        if b1 != b2:
+                            key_ = "inline:stale-model-after-caller-edit" if k in edited else "inline:differs-from-equal-copy"
+                            viol.append([key_, f"inline(model {k}) at step {step} builds to {b1}, inline(an equal copy of the model as it is now) to {b2}", step])
                 except Exception:  # noqa: BLE001
                     tag = "inline-failed"
             elif kind == "build_new":
@@ -243,6 +277,28 @@ def run_case(prog, hist, ref, collect_all=False):
                         viol.append(["bytes:differs-after-history",
                                      f"Vars #{list(outs_)} built at step {seen_new[rk][1]} gave {seen_new[rk][0]}, the same request at step {step} gives {s1}", step])
                     seen_new.setdefault(rk, (s1, step))
+            elif kind == "edit_model":
+                k = o["model"]
+                tag = "edit"
+                if k in models:
+                    m = models[k]
+                    size0 = m.ByteSize()
+                    if o["how"] == "weights" and len(m.graph.initializer):
+                        t = m.graph.initializer[0]
+                        if len(t.float_data):
+                            for j in range(len(t.float_data)):
+                                t.float_data[j] = t.float_data[j] + 4.0
+                        elif len(t.int64_data):
+                            for j in range(len(t.int64_data)):
+                                t.int64_data[j] = t.int64_data[j] + 0  # axes stay valid
+                    else:
+                        for nd_ in m.graph.node:
+                            if nd_.op_type in ("Add", "Mul"):
+                                nd_.op_type = "Sub" if nd_.op_type == "Add" else "Div"
+                                break
+                    edited.add(k)
+                    mb[k] = m.SerializeToString(deterministic=True)  # the caller's own edit is not spox's doing
+                    assert m.ByteSize() == size0, "harness: the edit was meant to preserve the size"
             elif kind == "renames" and manager is None:
                 tag = "skipped"
             elif kind == "renames":
@@ -289,6 +345,8 @@ def gen_history(rng: random.Random, prog, n_ops):
     nxt = prog["n"]
     hist = []
     made = []
+    untyped = []   # ids of untyped / unranked values (outputs of a user-defined operator without inference)
+    used_models = set()
     inlined = []   # (id of an inline result, model index)
     newer = []     # ids of values made by operators of a newer default opset
     for _ in range(n_ops):
@@ -310,6 +368,8 @@ def gen_history(rng: random.Random, prog, n_ops):
             hist.append({"op": "build_new", "outs": rng.sample(made, min(k_, len(made))), "drop": rng.random() < 0.7})
         elif r < 0.5:
             req = lf.gen_request(rng, prog, allow_bad=True, allow_dup=(rng.random() < 0.35))
+            if rng.random() < 0.2:
+                req = lf.gen_odd_request(rng, prog) or req
             if rng.random() < 0.12 and req["inputs"] and req["outputs"]:
                 # an output named like an input: ScopeError in the middle of the build
                 req["outputs"][0][0] = req["inputs"][0][0]
@@ -328,10 +388,35 @@ def gen_history(rng: random.Random, prog, n_ops):
             anyv.append(nxt)
             made.append(nxt)
             nxt += 1
+        elif r < 0.72 and scalars and rng.random() < 0.5:
+            hist.append({"op": "construct", "k": rng.choice(["untyped", "untyped", "partial"]), "a": rng.choice(scalars)})
+            untyped.append(nxt)
+            nxt += 1
+        elif scalars and rng.random() < 0.12:
+            # inline a model, let the caller edit it in place (same byte size), inline the same object again
+            k = rng.randrange(N_MODELS)
+            for j in range(2):
+                hist.append({"op": "inline", "model": k, "x": rng.choice(scalars), "how": rng.choice(["kw", "pos"])})
+                used_models.add(k)
+                for _ in range(2 if k == 2 else 1):
+                    scalars.append(nxt)
+                    anyv.append(nxt)
+                    made.append(nxt)
+                    inlined.append((nxt, k))
+                    nxt += 1
+                if j == 0:
+                    hist.append({"op": "edit_model", "model": k, "how": rng.choice(["weights", "op"])})
+        elif used_models and rng.random() < 0.15:
+            hist.append({"op": "edit_model", "model": rng.choice(sorted(used_models)), "how": rng.choice(["weights", "op"])})
         elif r < 0.88 and scalars:
             k = rng.randrange(N_MODELS)
             how = rng.choice(["kw", "kw", "pos", "missing", "unknown"])
-            hist.append({"op": "inline", "model": k, "x": rng.choice(scalars), "how": how})
+            xs = scalars + untyped * 3
+            x_ = rng.choice(xs)
+            if k == 2 and rng.random() < 0.4:
+                how = "bad-second"
+            hist.append({"op": "inline", "model": k, "x": x_, "how": how})
+            used_models.add(k)
             if how in ("kw", "pos"):
                 for _ in range(2 if k == 2 else 1):
                     scalars.append(nxt)
